@@ -274,7 +274,7 @@ func (s *shardProc) start(bin string) error {
 		return err
 	}
 	_ = lf.Close()
-	if !waitPort(fmt.Sprintf("127.0.0.1:%d", s.api), 10*time.Second) || !waitPort(fmt.Sprintf("127.0.0.1:%d", s.proxy), 10*time.Second) {
+	if !waitPort(fmt.Sprintf("127.0.0.1:%d", s.api), 40*time.Second) || !waitPort(fmt.Sprintf("127.0.0.1:%d", s.proxy), 40*time.Second) {
 		return fmt.Errorf("sidecar %d did not open its ports", s.i)
 	}
 	return nil
